@@ -279,58 +279,96 @@ theorem blobOK_unchanged (st : St σ) (e : BlobEvent σ) (hi : Inv st)
   · intro s; rw [hc, h s, transition_self]; rfl
   · intro c hc'; rw [hc] at hc'; simp at hc'
 
-theorem blobStep_ok (st : St σ) (e : BlobEvent σ) (hi : Inv st) (hd : e.fetch.distinct) :
-    BlobOK st e (blobStep st e) := by
+theorem ruleSets_within (b : σ → Bool) (f : BlobFetch σ) (hw : f.within b) (rss : List (σ × Option Hash))
+    (h : blobRuleSets f = some rss) : ∀ p ∈ rss, b p.1 = true := by
+  cases f with
+  | cancelled => simp [blobRuleSets] at h
+  | internal => simp [blobRuleSets] at h
+  | comm => simp only [blobRuleSets, Option.some.injEq] at h; subst h; simp
+  | single id x =>
+    unfold BlobFetch.within at hw
+    cases x with
+    | none => simp only [blobRuleSets, Option.some.injEq] at h; subst h; simp
+    | some x =>
+      cases x <;> simp only [blobRuleSets, Option.some.injEq, reduceCtorEq] at h <;> subst h <;> simp [hw]
+  | listing items =>
+    unfold BlobFetch.within at hw
+    simp only [blobRuleSets, Option.some.injEq] at h
+    subst h
+    intro p hp
+    simp only [List.mem_filterMap] at hp
+    obtain ⟨q, hq, hqp⟩ := hp
+    obtain ⟨id, x⟩ := q
+    cases x <;> simp only [Option.some.injEq, reduceCtorEq] at hqp
+    · subst hqp; exact hw _ hq
+    · subst hqp; exact hw _ hq
+
+theorem blobStep_ok (st : St σ) (e : BlobEvent σ) (hi : Inv st) (hd : e.fetch.distinct)
+    (hwithin : e.fetch.within e.bucket) : BlobOK st e (blobStep st e) := by
   unfold blobStep
   cases hrs : blobRuleSets e.fetch with
   | none =>
     have hraw : ∀ s, (e.raw s).next (st.book.get s) = st.book.get s := by
-      intro s; simp [BlobEvent.raw, hrs, Obs.next]
+      intro s; unfold BlobEvent.raw; split <;> simp [hrs, Obs.next]
     simp only
     split <;> exact blobOK_unchanged st e hi hraw _ rfl rfl
   | some rss =>
     simp only
     have hnd := ruleSets_nodup e.fetch hd rss hrs
-    cases hq : (rss.isEmpty && st.book.isEmpty) with
+    have hin := ruleSets_within e.bucket e.fetch hwithin rss hrs
+    have hold_mem : ∀ s, s ∈ st.book.keys.filter e.bucket ↔ s ∈ st.book.keys ∧ e.bucket s = true := by
+      intro s; simp [List.mem_filter]
+    cases hq : (rss.isEmpty && (st.book.keys.filter e.bucket).isEmpty) with
     | true =>
       simp only [if_true]
       simp only [Bool.and_eq_true, List.isEmpty_iff] at hq
       refine blobOK_unchanged st e hi ?_ _ rfl rfl
       intro s
-      simp [BlobEvent.raw, hrs, hq.1, hq.2, Obs.next, get_nil]
+      unfold BlobEvent.raw
+      cases hb : e.bucket s with
+      | false => simp [Obs.next]
+      | true =>
+        have : s ∉ st.book.keys := by
+          intro hk
+          have : s ∈ st.book.keys.filter e.bucket := (hold_mem s).mpr ⟨hk, hb⟩
+          rw [hq.2] at this; simp at this
+        have hg : st.book.get s = none := (get_none_iff _ _).mpr this
+        simp [hrs, hq.1, Obs.next, hg]
     | false =>
       simp only [Bool.false_eq_true, if_false]
       -- the two loops as one `syncMany`
-      let gone := (st.book.keys.filter (fun id => !(rss.map (·.1)).contains id)).map (fun id => (id, Obs.gone))
+      let old := st.book.keys.filter e.bucket
+      let gone := (old.filter (fun id => !(rss.map (·.1)).contains id)).map (fun id => (id, Obs.gone))
       let appl := rss.map (fun p => (p.1, rsObs p.2))
-      have hkeys : ∀ id ∈ st.book.keys, st.book.get id ≠ none := by
-        intro id hid hn; exact (get_none_iff _ _).mp hn hid
-      obtain ⟨r1, r2⟩ := blobRemove_eq e.rej (rss.map (·.1)) st.book.keys hi.nodup st hi hkeys
+      have hold_nd : old.Nodup := hi.nodup.filter _
+      have hkeys : ∀ id ∈ old, st.book.get id ≠ none := by
+        intro id hid hn; exact (get_none_iff _ _).mp hn ((hold_mem id).mp hid).1
+      obtain ⟨r1, r2⟩ := blobRemove_eq e.rej (rss.map (·.1)) old hold_nd st hi hkeys
       have hgone_nd : (gone.map (·.1)).Nodup := by
         simp only [gone, List.map_map]
         have : ((fun p : σ × Obs => p.1) ∘ fun id => (id, Obs.gone)) = id := rfl
         rw [this, List.map_id]
-        exact hi.nodup.filter _
+        exact hold_nd.filter _
       have ok1 := syncMany_ok e.rej gone hgone_nd st hi
       have hfind_gone : ∀ s, gone.find? (fun p => p.1 = s) =
-          if s ∈ st.book.keys ∧ s ∉ rss.map (·.1) then some (s, Obs.gone) else none := by
+          if s ∈ old ∧ s ∉ rss.map (·.1) then some (s, Obs.gone) else none := by
         intro s
         simp only [gone, find_map_gone, List.mem_filter, List.contains_eq_mem, Bool.not_eq_true',
           decide_eq_false_iff_not]
-      have hk2 : ∀ p ∈ rss, (p.1 ∈ st.book.keys ↔ (blobRemove e.rej st (rss.map (·.1)) st.book.keys).st.book.get p.1 ≠ none) := by
+      have hk2 : ∀ p ∈ rss, (p.1 ∈ old ↔ (blobRemove e.rej st (rss.map (·.1)) old).st.book.get p.1 ≠ none) := by
         intro p hp
         rw [r1, ok1.book p.1, hfind_gone]
         have : p.1 ∈ rss.map (·.1) := List.mem_map_of_mem (f := (·.1)) hp
         simp only [this, not_true_eq_false, and_false, if_false]
-        rw [ne_eq, get_none_iff]; simp
-      have hi1 : Inv (blobRemove e.rej st (rss.map (·.1)) st.book.keys).st := r1 ▸ ok1.inv
-      obtain ⟨a1, a2⟩ := blobApply_eq e.rej st.book.keys rss hnd _ hi1 hk2
+        rw [ne_eq, get_none_iff, hold_mem]; simp [hin p hp]
+      have hi1 : Inv (blobRemove e.rej st (rss.map (·.1)) old).st := r1 ▸ ok1.inv
+      obtain ⟨a1, a2⟩ := blobApply_eq e.rej old rss hnd _ hi1 hk2
       obtain ⟨m1, m2⟩ := syncMany_append e.rej st gone appl
-      have hst : (seqOut (blobRemove e.rej st (rss.map (·.1)) st.book.keys)
-          (fun st' => blobApply e.rej st.book.keys st' rss)).st = (syncMany e.rej st (gone ++ appl)).st := by
+      have hst : (seqOut (blobRemove e.rej st (rss.map (·.1)) old)
+          (fun st' => blobApply e.rej old st' rss)).st = (syncMany e.rej st (gone ++ appl)).st := by
         rw [seqOut_st, a1, m1, r1]
-      have hcalls : (seqOut (blobRemove e.rej st (rss.map (·.1)) st.book.keys)
-          (fun st' => blobApply e.rej st.book.keys st' rss)).calls = (syncMany e.rej st (gone ++ appl)).calls := by
+      have hcalls : (seqOut (blobRemove e.rej st (rss.map (·.1)) old)
+          (fun st' => blobApply e.rej old st' rss)).calls = (syncMany e.rej st (gone ++ appl)).calls := by
         rw [seqOut_calls, a2, m2, r2, r1]
       have hall_nd : ((gone ++ appl).map (·.1)).Nodup := by
         rw [List.map_append, List.nodup_append]
@@ -354,19 +392,27 @@ theorem blobStep_ok (st : St σ) (e : BlobEvent σ) (hi : Inv st) (hd : e.fetch.
         intro s
         rw [List.find?_append, hfind_gone]
         unfold BlobEvent.raw
-        rw [hrs]
         by_cases hcur : s ∈ rss.map (·.1)
         · obtain ⟨x, hx⟩ := find_some_of_mem rss s hcur
+          have hb : e.bucket s = true := by
+            obtain ⟨p, hp, hps⟩ := List.mem_map.mp hcur
+            exact hps ▸ hin p hp
           simp only [hcur, not_true_eq_false, and_false, if_false, Option.none_or, appl, find_map_rs, hx,
-            Option.map_some]
+            Option.map_some, hb, Bool.not_true, Bool.false_eq_true, hrs]
           cases x <;> rfl
         · have hnone := find_none_of_not_mem rss s hcur
           have happl : appl.find? (fun p => p.1 = s) = none := by
             simp only [appl, find_map_rs, hnone, Option.map_none]
-          by_cases hk : s ∈ st.book.keys
-          · simp [hk, hcur, hnone]
-          · have : st.book.get s = none := (get_none_iff _ _).mpr hk
-            simp only [hk, false_and, if_false, Option.none_or, happl, hnone, Obs.next, this]
+          by_cases hk : s ∈ old
+          · have hb : e.bucket s = true := ((hold_mem s).mp hk).2
+            simp [hk, hcur, hnone, hb, hrs]
+          · simp only [hk, false_and, if_false, Option.none_or, happl]
+            cases hb : e.bucket s with
+            | false => simp [Obs.next]
+            | true =>
+              have : s ∉ st.book.keys := fun hk' => hk ((hold_mem s).mpr ⟨hk', hb⟩)
+              have hg : st.book.get s = none := (get_none_iff _ _).mpr this
+              simp [hrs, hnone, Obs.next, hg]
       refine ⟨hst ▸ ok.inv, ?_, ?_, ?_⟩
       · intro s
         rw [hst, ok.book s]
